@@ -8,6 +8,10 @@ indexing/slicing/reversal, concatenation, axis sums.
 """
 
 SHAPES = [(), (), (2,), (3,), (4,), (2, 2), (2, 3), (3, 4)]
+# quick tier: few, small shapes (jax compiles every primitive once per operand shape and process, so a small
+# shape set lets the cases of one shard share most of their compiled primitives), depth <= 2, <= 2 outputs
+LITE = {'shapes': [(), (2,), (3,), (2, 2), (2, 3)], 'nouts': [1, 2, 2], 'depths': [1, 2, 2], 'nstates': [1, 1, 2],
+        'state_shapes': [(), (2,), (3,), (2, 2)], 'state_depths': [1, 1, 2]}
 
 
 def size(shape):
@@ -93,7 +97,9 @@ class FuncGen(object):
             k = self.pick(['sum', 'dot', 'index'])
             self.prims.add(k)
             if k == 'sum':
-                return 'XP.sum(%s)' % self.expr(self.pick([(2,), (3,), (2, 3)]), d)
+                a = self.expr(self.pick([(2,), (3,), (2, 3)]), d)
+                # function or method form (the operand is always an array)
+                return ('XP.sum(%s)' if rng.random() < 0.5 else '(%s).sum()') % a
             if k == 'dot':
                 n = self.pick([2, 3, 4])
                 return 'XP.dot(%s, %s)' % (self.expr((n,), d), self.expr((n,), d))
@@ -109,7 +115,8 @@ class FuncGen(object):
                 return 'XP.dot(%s, %s)' % (self.expr((n, c), d), self.expr((c,), d))
             if k == 'matmul-op':
                 c = self.pick([2, 3])
-                return '(%s @ %s)' % (self.expr((n, c), d), self.expr((c,), d))
+                # operands parenthesised: '@' and '*' have the same precedence ('a @ 0.5 * b' is '(a @ 0.5) * b')
+                return '((%s) @ (%s))' % (self.expr((n, c), d), self.expr((c,), d))
             if k == 'reverse':
                 return '(%s)[::-1]' % self.expr((n,), d)
             if k == 'concat' and n >= 2:
@@ -120,7 +127,7 @@ class FuncGen(object):
                 return '(%s)[%d]' % (self.expr((r, n), d), int(rng.integers(r)))
             if k == 'axissum':
                 c = self.pick([2, 3])
-                return 'XP.sum(%s, axis=1)' % self.expr((n, c), d)
+                return ('XP.sum(%s, axis=1)' if rng.random() < 0.5 else '(%s).sum(axis=1)') % self.expr((n, c), d)
             m = n + 1
             return '(%s)[1:]' % self.expr((m,), d)
         r_, c_ = shape
@@ -129,7 +136,7 @@ class FuncGen(object):
         if k == 'outer':
             return 'XP.outer(%s, %s)' % (self.expr((r_,), d), self.expr((c_,), d))
         if k == 'transpose':
-            return '(%s).T' % self.expr((c_, r_), d)
+            return ('(%s).T' if rng.random() < 0.7 else 'XP.transpose(%s)') % self.expr((c_, r_), d)
         if k == 'matmat':
             m = self.pick([2, 3])
             return 'XP.dot(%s, %s)' % (self.expr((r_, m), d), self.expr((m, c_), d))
@@ -149,20 +156,20 @@ class FuncGen(object):
         return self.leaf(shape)
 
 
-def gen_explicit(rng, nout=None, depth=None, with_static=False, max_inputs=3, elementwise_bias=0.4):
+def gen_explicit(rng, nout=None, depth=None, with_static=False, max_inputs=3, elementwise_bias=0.4, lite=False):
     """Description of an explicit function: inputs (name->shape), outputs (name->shape), body lines."""
     g = FuncGen(rng, max_inputs=max_inputs)
     if with_static:
         g.static = 'kopt'
-    nout = nout or int(g.pick([1, 1, 2, 2, 3]))
+    nout = nout or int(g.pick(LITE['nouts'] if lite else [1, 1, 2, 2, 3]))
     outs, lines = {}, []
     for k in range(nout):
-        d = depth or int(g.pick([1, 2, 2, 3]))
+        d = depth or int(g.pick(LITE['depths'] if lite else [1, 2, 2, 3]))
         if rng.random() < elementwise_bias and g.inputs:
             # same shape as an existing input: gives (block-)diagonal sub-jacobians worth coloring
             shape = g.pick(list(g.inputs.values()))
         else:
-            shape = g.pick(SHAPES)
+            shape = g.pick(LITE['shapes'] if lite else SHAPES)
         e = g.expr(shape, d)
         outs['y%d' % k] = tuple(shape)
         lines.append('y%d = %s' % (k, e))
@@ -172,19 +179,19 @@ def gen_explicit(rng, nout=None, depth=None, with_static=False, max_inputs=3, el
             'lines': lines, 'static': g.static, 'prims': sorted(g.prims)}
 
 
-def gen_implicit(rng, nstate=None, depth=None, with_static=False, max_inputs=3):
+def gen_implicit(rng, nstate=None, depth=None, with_static=False, max_inputs=3, lite=False):
     """Residuals r_i = c_i*s_i + 0.3*sin(s_i) [+ 0.2*coupling] - g_i(inputs): diagonally dominant in the
     states, so a Newton solve converges and the implicit-function-theorem totals are well conditioned."""
     g = FuncGen(rng, max_inputs=max_inputs)
     if with_static:
         g.static = 'kopt'
-    nstate = nstate or int(g.pick([1, 1, 2]))
+    nstate = nstate or int(g.pick(LITE['nstates'] if lite else [1, 1, 2]))
     states, lines = {}, []
     for k in range(nstate):
-        shape = g.pick([(), (2,), (3,), (2, 2)])
+        shape = g.pick(LITE['state_shapes'] if lite else [(), (2,), (3,), (2, 2)])
         states['s%d' % k] = tuple(shape)
     for k, (s, shape) in enumerate(states.items()):
-        d = depth or int(g.pick([1, 2, 2]))
+        d = depth or int(g.pick(LITE['state_depths'] if lite else [1, 2, 2]))
         gi = g.expr(shape, d)
         c = round(float(rng.uniform(2.0, 3.5)), 2)
         line = 'r%d = %r * %s + 0.3 * XP.sin(%s)' % (k, c, s, s)
